@@ -202,7 +202,7 @@ class Event:
 
     def wait(self, timeout=None):
         if not self._flag:
-            SCHED.park(("event-wait",), cond=lambda: self._flag, deadline=None if timeout is None else SCHED.clock + timeout)
+            SCHED.park(("event-wait",), cond=lambda: self._flag, deadline=None if timeout is None else round(SCHED.clock + timeout, 6))
         return self._flag
 
 
@@ -265,7 +265,7 @@ class Queue:
 
     def get(self, block=True, timeout=None):
         timed_out = SCHED.park(("get",), cond=lambda: len(self.items) > 0,
-                               deadline=None if timeout is None else SCHED.clock + timeout)
+                               deadline=None if timeout is None else round(SCHED.clock + timeout, 6))
         if self.items and not timed_out:
             return self.items.popleft()
         if timed_out and self.items:
@@ -398,7 +398,7 @@ class TimeShim:
 
     @staticmethod
     def sleep(x):
-        SCHED.park(("sleep",), cond=lambda: False, deadline=SCHED.clock + x)
+        SCHED.park(("sleep",), cond=lambda: False, deadline=round(SCHED.clock + x, 6))
 
 
 class OsShim:
